@@ -28,7 +28,8 @@ inductive ANet where
   | v6 (h : IPv6Hdr)
 
 inductive ATrans where
-  | tcp (sp dp seq ack off fl win cs urg : Nat)
+  /-- TCP: ports, sequence / acknowledgement numbers, data offset, the three reserved bits, the nine flag bits, … -/
+  | tcp (sp dp seq ack off res fl win cs urg : Nat)
   | udp (sp dp len cs : Nat)
   /-- ICMP / ICMPv6: type, code, checksum, and the 4-octet rest of the header -/
   | icmp (ty code cs : Nat) (rest : Bytes)
@@ -65,7 +66,7 @@ def encNet : ANet → Bytes
   | .v6 h => encIPv6 h
 
 def encTrans : ATrans → Bytes
-  | .tcp sp dp seq ack off fl win cs urg => encTCP sp dp seq ack off fl win cs urg
+  | .tcp sp dp seq ack off res fl win cs urg => encTCP sp dp seq ack off res fl win cs urg
   | .udp sp dp len cs => encUDP sp dp len cs
   | .icmp ty code cs rest => encICMP ty code cs ++ rest
 
@@ -87,10 +88,10 @@ def ANet.WF : ANet → Prop
   | .v4 h opts => h.WF ∧ OptsWF opts
   | .v6 h => h.WF
 
-/-- field ranges of the transport header; TCP reserved bits are 0 (the struct reports `Reserved: 0`),
-the nine flag bits are NS CWR ECE URG ACK PSH RST SYN FIN -/
+/-- field ranges of the transport header; TCP: the three reserved bits take any value 0 … 7 (reported as
+`Reserved` since the F19c repair), the nine flag bits are NS CWR ECE URG ACK PSH RST SYN FIN -/
 def ATrans.WF : ATrans → Prop
-  | .tcp sp dp _ _ off fl _ _ _ => sp < 65536 ∧ dp < 65536 ∧ off < 16 ∧ fl < 512
+  | .tcp sp dp _ _ off res fl _ _ _ => sp < 65536 ∧ dp < 65536 ∧ off < 16 ∧ res < 8 ∧ fl < 512
   | .udp sp dp _ _ => sp < 65536 ∧ dp < 65536
   | .icmp ty code _ rest => ty < 256 ∧ code < 256 ∧ rest.length = 4
 
@@ -122,7 +123,7 @@ def expNet : ANet → L3
 /-- `RestHeader` of the ICMP struct is `b[4:]`: everything after the checksum up to the end of the
 sampled header, i.e. the rest of the header followed by the trailing payload -/
 def expTrans : ATrans → Bytes → L4
-  | .tcp sp dp _ _ off fl _ _ _, _ => .tcp sp dp off 0 fl
+  | .tcp sp dp _ _ off res fl _ _ _, _ => .tcp sp dp off res fl
   | .udp sp dp _ _, _ => .udp sp dp
   | .icmp ty code _ rest, payload => .icmp ty code (rest ++ payload)
 
@@ -149,10 +150,10 @@ theorem decodeNext_icmp (p : Nat) (d : Bytes) (l4 : L4) (hp : p = 1 ∨ p = 58) 
 theorem decodeNext_enc (t : ATrans) (p : Nat) (payload : Bytes) (hwf : t.WF) (hp : t.protoOK p) :
     decodeNext p (encTrans t ++ payload) = .ok (expTrans t payload) := by
   cases t with
-  | tcp sp dp seq ack off fl win cs urg =>
+  | tcp sp dp seq ack off res fl win cs urg =>
     simp only [ATrans.protoOK] at hp
     subst hp
-    exact decodeNext_tcp _ _ (decodeTCP_enc sp dp seq ack off fl win cs urg payload hwf)
+    exact decodeNext_tcp _ _ (decodeTCP_enc sp dp seq ack off res fl win cs urg payload hwf)
   | udp sp dp len cs =>
     simp only [ATrans.protoOK] at hp
     subst hp
